@@ -1264,6 +1264,20 @@ class Interp:
                 self.exec_block(s.orelse, env)
             return
         if lspec is None:
+            # `xs = []; for t in it: xs.append(e)` is the list comprehension [e for t in it] written out
+            # (same elements, same order); treated as such so that this refactoring needs no invariant
+            b = s.body[0] if len(s.body) == 1 and not s.orelse else None
+            if (isinstance(b, ast.Expr) and isinstance(b.value, ast.Call) and isinstance(b.value.func, ast.Attribute)
+                    and b.value.func.attr == "append" and isinstance(b.value.func.value, ast.Name)
+                    and len(b.value.args) == 1 and not b.value.keywords):
+                nm = b.value.func.value.id
+                cur = env.lookup(nm) if env.has(nm) else None
+                uses_self = any(isinstance(x, ast.Name) and x.id == nm for x in ast.walk(b.value.args[0]))
+                if isinstance(cur, list) and not cur and not uses_self:
+                    comp = ast.ListComp(elt=b.value.args[0], generators=[
+                        ast.comprehension(target=s.target, iter=s.iter, ifs=[], is_async=0)])
+                    env.set(nm, self.comprehension(comp, env, "list"))
+                    return
             raise Unsupported(
                 f"{self.module.name}:{s.lineno}: loop #{ordn} over a symbolic iterable needs an invariant")
         self.symbolic_for(s, env, it, lspec, ordn)
